@@ -340,10 +340,10 @@ theorem wellScopedB_iff (s : Scope) (p : Pattern) : wellScopedB s p = true ↔ W
   cases ha : s.activator <;> cases ht : s.terminator <;> simp [boundB_iff, List.isEmpty_iff, List.eq_nil_iff_forall_not_mem, and_assoc]
 
 /-! ## non-vacuity: `after a as X until b {@X.f}: c as Y causes d {@X.f and @Y.f}` -/
-def refX : Expr := .field 1 (.var 64 "X") "f"
-def refY : Expr := .field 1 (.var 64 "Y") "f"
+def refX : Expr := .field T.BOOL (.var T.MESSAGE "X") "f"
+def refY : Expr := .field T.BOOL (.var T.MESSAGE "Y") "f"
 def exScope : Scope := ⟨.afterUntil, some (.simple "a" (some "X") .vtrue), some (.simple "b" none (.expr refX))⟩
-def exPattern : Pattern := ⟨.response, .simple "d" none (.expr (.bin 1 "and" refX refY)), some (.simple "c" (some "Y") .vtrue), 0, none⟩
+def exPattern : Pattern := ⟨.response, .simple "d" none (.expr (.bin T.BOOL "and" refX refY)), some (.simple "c" (some "Y") .vtrue), 0, none⟩
 example : sanityCheck exScope exPattern = .ok () := by rfl
 example : sanityCheck exScope { exPattern with kind := .requirement } = .error .sanity := by rfl
 example : ScopeOK exScope ∧ PatOK exPattern := by
